@@ -367,6 +367,14 @@ pub fn run_c12(out: &mut Out, rng: &mut Rng, thorough: bool, only: Option<&str>,
                 run_stream(out, *v, Content::Explicit(rng.bytes(n)), script, false);
             }
         }
+        // three-byte checksums: one stream just beyond the internal buffer (the checksum is stepped by TLC)
+        if v.ck_len() == 3 {
+            let plen = 47 + rng.below(15) as usize;
+            let pat = rng.bytes(plen);
+            let n = MIB + 5 + rng.below(40) as usize;
+            let script = if rng.chance(1, 2) { random_script(rng, n, MIB / 3, 0) } else { vec![Step::Deliver(usize::MAX); 4] };
+            run_stream(out, *v, Content::Periodic(pat, n), script, false);
+        }
         // streams around and beyond the internal 1 MiB buffer (periodic content)
         if v.ck_len() == 1 {
             let sizes: Vec<usize> = if thorough { vec![MIB - 1, MIB, MIB + 1, 3 * MIB + 7] } else { vec![MIB, MIB + 1, 2 * MIB + 5] };
